@@ -870,7 +870,9 @@ def r9_readlines_hint(rep, src):
             calls['n'] += 1
             return lines[calls['n'] - 1] if calls['n'] <= len(lines) else b''
         heap = H.Heap(src.mod(M), hooks={'.readline': readline})
-        me = heap.alloc('ArMember', {})
+        # (the member's geometry, should the method consult it: data of sum(len(lines)) bytes at offset 60 of the archive)
+        size_ = sum(len(l_) for l_ in lines)
+        me = heap.alloc('ArMember', {'_ArMember__offset': 60, '_ArMember__cur': 60, '_ArMember__end': 60 + size_, '_ArMember__size': size_})
         it = H.Interp(heap)
         n += 1
         try:
